@@ -1887,16 +1887,36 @@ def _search_result_flow_once(f: Func) -> Func:
     #     if X is None: JUMP
     #     REST
     def leaves(stmts, X):
-        """the blocks in which the statement list ends, if every one of them ends with an assignment to X; else None"""
+        """[(block, position)]: the places at which the statement list ends, if each of them is right after an assignment to X (block[position - 1]);
+        else None.  A search loop `while ..: ..; X = V; break  else: X = None` ends in two places: before its `break` and at the end of its else."""
         if not stmts:
             return None
         last = stmts[-1]
         if isinstance(last, ast.Assign) and len(last.targets) == 1 and norm.is_name(last.targets[0], X):
-            return [stmts]
+            return [(stmts, len(stmts))]
         if isinstance(last, ast.If) and last.orelse:
             a, b = leaves(last.body, X), leaves(last.orelse, X)
             if a is not None and b is not None:
                 return a + b
+        if isinstance(last, (ast.While, ast.For)) and last.orelse and isinstance(last.orelse[-1], ast.Assign) and len(last.orelse[-1].targets) == 1 \
+                and norm.is_name(last.orelse[-1].targets[0], X):
+            sites = []
+
+            def scan(ss, depth):
+                for k, st in enumerate(ss):
+                    if isinstance(st, ast.Break) and depth == 0:
+                        sites.append((ss, k))
+                    if isinstance(st, (ast.FunctionDef, ast.AsyncFunctionDef, ast.ClassDef)):
+                        continue
+                    for fl2, b2 in _block_lists(st):
+                        scan(b2, depth + 1 if isinstance(st, (ast.For, ast.While, ast.AsyncFor)) and fl2 != "orelse" else depth)
+            scan(last.body, 0)
+            binds = [x for x in ast.walk(last) if isinstance(x, ast.Name) and x.id == X and isinstance(x.ctx, (ast.Store, ast.Del))]
+            if len(sites) == 1 and sites[0][1] > 0 and len(binds) == 2:
+                ss, k = sites[0]
+                pv = ss[k - 1]
+                if isinstance(pv, ast.Assign) and len(pv.targets) == 1 and norm.is_name(pv.targets[0], X):
+                    return [(ss, k), (last.orelse, len(last.orelse))]
         return None
     again = True
     rounds = 0
@@ -1925,9 +1945,11 @@ def _search_result_flow_once(f: Func) -> Func:
                     rest = blk[i + 2:] if not positive else guard.body
                     if positive:
                         guard = ast.If(test=guard.test, body=[ast.copy_location(ast.Pass(), guard)], orelse=[])
+                    if any(pos_ != len(blk_) for blk_, pos_ in lv) and _has_loop_jump(rest):
+                        continue          # REST would move into a search loop: its own break / continue would bind there
                     kinds = []
-                    for leaf in lv:
-                        val = leaf[-1].value
+                    for blk_, pos_ in lv:
+                        val = blk_[pos_ - 1].value
                         if isinstance(val, ast.Constant) and val.value is None:
                             kinds.append("none")
                         elif isinstance(val, (ast.Tuple, ast.List, ast.Dict, ast.JoinedStr, ast.BinOp)) or (isinstance(val, ast.Constant) and val.value is not None) \
@@ -1939,11 +1961,11 @@ def _search_result_flow_once(f: Func) -> Func:
                         continue
                     x_loads_elsewhere = [n_ for n_ in ast.walk(node) if isinstance(n_, ast.Name) and n_.id == X and isinstance(n_.ctx, ast.Load)
                                          and not any(n_ is y for b_ in blk[i + 1:] for y in ast.walk(b_))]
-                    for leaf, kd in zip(lv, kinds):
+                    for (blk_, pos_), kd in zip(lv, kinds):
                         if positive and kd == "none" and not x_loads_elsewhere:
-                            leaf[-1] = ast.copy_location(ast.Pass(), leaf[-1])       # `X = None` that nobody reads any more
+                            blk_[pos_ - 1] = ast.copy_location(ast.Pass(), blk_[pos_ - 1])       # `X = None` that nobody reads any more
                             continue
-                        leaf.extend([norm.clone(x) for x in (guard.body if kd == "none" else rest)])
+                        blk_[pos_:pos_] = [norm.clone(x) for x in (guard.body if kd == "none" else rest)]
                     del blk[i + 1:]
                     again = changed = True
                     break
